@@ -21,7 +21,7 @@ if not nofix:
         subj = [l for l in open(patch) if l.startswith('Subject:')][0]
         if 'fix:' not in subj:
             sys.exit('patch %s is not a fix: commit (%s)' % (patch, subj.strip()))
-        r = sh('git -C /repo am %s' % patch)
+        r = sh('git -C /repo am -3 %s' % patch)
         if r.returncode != 0:
             print(r.stdout, r.stderr)
             sh('git -C /repo am --abort')
